@@ -141,3 +141,15 @@ claim("C13",
       "Trusted: Coq kernel + VM; harness incl. the calendar rule for signal times ('9am one/two days before') computed by the harness; "
       "Python csv/datetime as glue. No axioms.",
       "Coq proof over the schedule reader model + exact correspondence + end-to-end generator checks", "5.13")
+claim("C19",
+      "Theorems (R instance) on the models of the two trip loops, for ALL trip streams (hence every seed, duration, start time, "
+      "no-drive-day set, fleet) resp. all departure-ordered trip tables: events of a vehicle alternate in chronological order, "
+      "every departure announces exactly the following arrival, every arrival followed by a trip announces exactly that trip's "
+      "departure and its desired SoC is >= the minimum and covers the consumption until the next connection (times 1+buffer for "
+      "the statistics generator); initial announcement consistent; characterisation of the arrival that keeps the placeholder "
+      "(known finding). Models tied to /repo by exact correspondence per vehicle (random trips recorded from generate_trip). "
+      "PARTIAL: SimBEV generator, seed reproducibility, loading and the greedy run without negative SoC are checked on generated "
+      "parameter sets / trip tables / synthetic SimBEV directories only (sampled); found and fixed: KeyError for a vehicle without trips.",
+      TB + AX_R + ", Classical_Prop.classic. Trusted additionally: projection of the shared event list on one vehicle, module-level "
+      "patch of float() in generate_from_csv and the generate_trip recorder.",
+      "Coq proof (invariant over the trip loop) + exact differential correspondence + sampled generator predicates", "5.19")
